@@ -188,6 +188,15 @@ def check_case(case):
     dis = check_string(s, status, segs)
     if case["edit"][0] == "none" and status == "ok":
         dis += check_truncations(s, segs)
+    # the same tape in a decimal unit (1e-7, 0.1, 1234.5678): the grammar does not care about magnitudes, and what is
+    # retained must be as usable as with small integers (arc groups are left out: their flags are numbers too)
+    if not any(t[0] == "c" and t[1] in "aA" for t in tape):
+        u = (1e-7, 0.1, 1234.5678, 1.1)[(len(tape) + case.get("salt", 0)) % 4]
+        s2 = " ".join(t[1] if t[0] == "c" else (repr(t[1] * u) if t[0] == "n" else JUNK[(t[1] + i + case.get("salt", 0)) % len(JUNK)]) for i, t in enumerate(tape))
+        for d in check_string(s2, "unknown", []):
+            if d["clause"] in ("Totality", "NonNumeric", "AfterOp"):
+                d["unit"] = u
+                dis.append(d)
     # the specification's parser is a function of the tape alone: the outcome must not depend on
     # what was parsed before (history of parses = a poisoned parse, then the same data again)
     o1 = outcome(s)
